@@ -129,7 +129,7 @@ def replay_path(case):
                 complete(next_args()[0])
                 pos['i'] += 1
                 continue
-            if a in ('InitialSubmit', 'While', 'Refill', 'Yield'):
+            if a in ('InitialSubmit', 'While', 'Refill', 'Yield', 'Resume'):
                 if a == 'While' and set(st['snap']) != tids and st['pc'] == 'For':
                     raise Mismatch(f'as_completed snapshot {sorted(tids)} but specification snapshot {sorted(st["snap"])}')
                 if a == 'InitialSubmit' and sorted(st['futures']) != sorted(submitted):
@@ -175,7 +175,7 @@ def replay_path(case):
                         complete(next_args()[0])
                         pos['i'] += 1
                         continue
-                    if a in ('Refill', 'While', 'InitialSubmit'):
+                    if a in ('Refill', 'While', 'InitialSubmit', 'Resume'):
                         pos['i'] += 1
                         continue
                     break
@@ -195,18 +195,30 @@ def replay_path(case):
                 if len(submitted) != st['unsub'] - 1:
                     raise Mismatch(f'after yielding {tid}: {len(submitted)} tasks submitted ({submitted}), specification {st["unsub"] - 1}')
                 yielded.append(tid)
+                # the consumer holds the Result: the behaviour may cancel now (the stop event every Result carries)
+                while next_action()[0] in ('Cancel', 'Complete'):
+                    a, st = next_action()
+                    if a == 'Complete':
+                        complete(next_args()[0])
+                    else:
+                        if res.stop is not stop:
+                            raise Mismatch('the Result does not carry the stop event of this call')
+                        res.stop.set()
+                    pos['i'] += 1
             # generator finished: the rest of the behaviour may only be environment steps and the final While
             while pos['i'] < len(path):
                 a, st = next_action()
-                if a in ('Complete', 'While', 'ForEnd'):
+                if a in ('Complete', 'While', 'ForEnd', 'Resume'):
                     pos['i'] += 1
                     continue
                 raise Mismatch(f'implementation finished after yielding {yielded} but the behaviour continues with {a!r}')
             final = path[-1][1] if path else case['init']
             if [y['t'] for y in final['yielded']] != yielded:
                 raise Mismatch(f'yielded {yielded}, specification {[y["t"] for y in final["yielded"]]}')
-            if sorted(yielded) != list(range(1, nt + 1)):
+            if not final.get('stop') and sorted(yielded) != list(range(1, nt + 1)):
                 raise Mismatch(f'not exactly one result per payload: {yielded}')
+            if len(set(yielded)) != len(yielded):
+                raise Mismatch(f'a payload yielded twice: {yielded}')
         except Mismatch as e:
             return {'ok': False, 'why': str(e), 'steps': pos['i'], 'yielded': yielded}
         except Exception as e:  # noqa: BLE001
